@@ -446,7 +446,10 @@ class RealStopping:
     import collections
     log = list(self.d.log)
     ret = self.marks.get("returned")
-    timer_inserts = [k for k, (t, tgt, op) in enumerate(log) if t in self.info["timer_tids"] and tgt == "D" and op in ("append", "appendleft")]
+    info = self.info
+    watched = [info["timer_tids"][i] for i in range(info["sources"])
+               if info["action"] == "stop" or i == 0 or (info["action"] == "cancel_events" and not info["other_source"])]
+    timer_inserts = [k for k, (t, tgt, op) in enumerate(log) if t in watched and tgt == "D" and op in ("append", "appendleft")]
     return {"caller_returned_at_op": ret, "timer_inserts_at_ops": timer_inserts,
             "timer_insert_after_return": bool(ret is not None and any(k >= ret for k in timer_inserts)),
             "dispatches": [(n, k) for (n, k) in self.log],
